@@ -313,6 +313,9 @@ def default_expr(ty, decls):
         return N('variant', ty[1], v, *[default_expr(t, decls) for t in ts], ty=ty)
     if k == 'Option':
         return N('variant', 'Option', 'Some', default_expr(ty[1], decls), ty=ty)
+    if k == 'Fn':
+        ps = [('dp%d' % i, t) for i, t in enumerate(ty[1])]
+        return N('lambda', ps, ty[2], G.block(default_expr(ty[2], decls)), ty=ty)
     raise ValueError(ty)
 
 
@@ -366,6 +369,11 @@ def augment(decls, rng):
              pub=False),
         dict(G.fn_decl('open', [('x', I64)], I64, G.block(G.meth('wrapping_mul', G.var('x', I64), G.lit(I64, 2), ty=I64))),
              pub=True)]))
+    # a class whose fields have a tuple type and a function type: constructor arguments are checked by type UNIFICATION
+    # in the real front end (typeck/infer.rs), a path that differs from the one ordinary calls take
+    tty = G.t_tuple(I64, BOOL)
+    f1ty = G.t_fn([I64], I64)
+    extra.append(dict(k='class', name='AugT', fields=[('t', tty), ('f', f1ty)]))
     decls[pos:pos] = extra
     st = []
     # Bool match (expression and statement form)
@@ -414,6 +422,16 @@ def augment(decls, rng):
     st.append(G.let('aug_f', fty, N('lambda', [('x', I64)], I64,
                                     G.block(G.binop('add', G.var('x', I64), G.var('aug_n', I64), ty=I64)), ty=fty)))
     st.append(show(N('callv', G.var('aug_f', fty), G.lit(I64, 1), ty=I64), tag='lf'))
+    # constructor with a tuple argument and a function argument
+    st.append(G.let('aug_tp', tty, N('tuple', G.lit(I64, rng.randint(1, 9)), G.lit(BOOL, True), ty=tty)))
+    f2ty = G.t_fn([I64, I64], I64)
+    st.append(G.let('aug_f2', f2ty, N('lambda', [('x', I64), ('y', I64)], I64,
+                                      G.block(G.binop('sub', G.var('x', I64), G.var('y', I64), ty=I64)), ty=f2ty)))
+    aty = G.t_class('AugT')
+    st.append(G.let('aug_k', aty, N('new', 'AugT', [('t', G.var('aug_tp', tty)), ('f', G.var('aug_f', fty))], ty=aty)))
+    st.append(show(N('tget', N('field', G.var('aug_k', aty), 't', ty=tty), 0, ty=I64),
+                   N('callv', N('field', G.var('aug_k', aty), 'f', ty=fty), G.lit(I64, 2), ty=I64),
+                   N('callv', G.var('aug_f2', f2ty), G.lit(I64, 9), G.lit(I64, 4), ty=I64), tag='kt'))
     main['body'].a[0:0] = st
     return decls
 
@@ -574,6 +592,50 @@ def op_arg_type(decls, rng):
     n, i = c
     n.a[i] = G.lit(G.T_BOOL, True)
     return 'argument of call `%s` at line %d -> Bool literal' % (n.a[0], n.line)
+
+
+def ctor_sites(decls, want):
+    """(new-node, index of the field, field type) for constructor arguments whose declared field type satisfies `want`"""
+    res = []
+    for n, s, o, _ in all_nodes(decls):
+        if n.k != 'new':
+            continue
+        d = [x for x in decls if x['k'] in ('struct', 'class') and x['name'] == n.a[0]]
+        if not d:
+            continue
+        ft = dict(d[0]['fields'])
+        for i, (f, e) in enumerate(n.a[1]):
+            if f in ft and want(ft[f]):
+                res.append((n, i, ft[f]))
+    return res
+
+
+def op_ctor_tuple_arity(decls, rng):
+    """a constructor argument of tuple type gets one element MORE (the shared prefix keeps its types): a type mismatch
+    that is a pure arity difference"""
+    c = pick(rng, ctor_sites(decls, lambda t: t[0] == 'Tuple' and all(x in (G.T_I64, G.T_I32, G.T_BOOL) for x in t[1:])))
+    if not c:
+        return None
+    n, i, t = c
+    elems = [G.lit(x, True if x == G.T_BOOL else 1) for x in t[1:]] + [G.lit(G.T_I64, 0)]
+    f = n.a[1][i][0]
+    n.a[1][i] = (f, N('tuple', *elems, ty=G.t_tuple(*(list(t[1:]) + [G.T_I64]))))
+    return 'constructor argument `%s` of %s at line %d -> tuple with one more element' % (f, n.a[0], n.line)
+
+
+def op_ctor_fn_arity(decls, rng):
+    """a constructor argument of function type (Int64): Int64 gets a value of type (Int64, Int64): Int64"""
+    c = pick(rng, ctor_sites(decls, lambda t: t == G.t_fn([G.T_I64], G.T_I64)))
+    if not c:
+        return None
+    n, i, t = c
+    f2 = G.t_fn([G.T_I64, G.T_I64], G.T_I64)
+    have = [m for m, s, o, _ in all_nodes(decls) if m.k == 'let' and m.a[0] == 'aug_f2']
+    if not have:
+        return None
+    f = n.a[1][i][0]
+    n.a[1][i] = (f, G.var('aug_f2', f2))
+    return 'constructor argument `%s` of %s at line %d -> function value with one more parameter' % (f, n.a[0], n.line)
 
 
 def op_ret_type(decls, rng):
@@ -929,7 +991,8 @@ def op_drop_impl_method(decls, rng):
 
 OPS = {
     'mismatch': [('lit_bool', op_lit_bool), ('lit_str', op_lit_str), ('cond_int', op_cond_int), ('let_init', op_let_init),
-                 ('arg_type', op_arg_type), ('ret_type', op_ret_type)],
+                 ('arg_type', op_arg_type), ('ret_type', op_ret_type), ('ctor_tuple_arity', op_ctor_tuple_arity),
+                 ('ctor_fn_arity', op_ctor_fn_arity)],
     'argcount': [('drop_arg', op_drop_arg), ('add_arg', op_add_arg)],
     'unknown': [('rename_var', op_rename_var), ('unknown_fn', op_unknown_fn), ('unknown_method', op_unknown_method),
                 ('unknown_field', op_unknown_field), ('private_fn', op_private_fn)],
